@@ -37,6 +37,9 @@ pub enum FaultKind {
     ForeignError,
     /// the positive reply, but only `late_ms` after the reply to the NEXT request has been sent
     HoldOk,
+    /// (load-configuration) two replies bearing the request's message-id: first one with an
+    /// rpc-error of severity error, then a positive one
+    ErrorReplyThenSecondPositiveReply,
 }
 
 impl FaultKind {
@@ -56,6 +59,7 @@ impl FaultKind {
             FaultKind::ErrorWarningThenOk => "error-warning-then-ok",
             FaultKind::ForeignError => "junos-xnm-error",
             FaultKind::HoldOk => "ok-held-back-behind-the-next-reply",
+            FaultKind::ErrorReplyThenSecondPositiveReply => "error-reply-then-second-positive-reply",
         }
     }
     /// does this fault mean "the step failed" (as opposed to a benign variation)?
@@ -66,7 +70,7 @@ impl FaultKind {
         [
             FaultKind::RpcError, FaultKind::WarningThenOk, FaultKind::NoPositive, FaultKind::NotXml, FaultKind::Truncated,
             FaultKind::WrongMessageId, FaultKind::CloseBefore, FaultKind::CloseAfter, FaultKind::StallThenClose,
-            FaultKind::DelayedRpcError, FaultKind::ErrorThenOk, FaultKind::ErrorWarningThenOk, FaultKind::ForeignError, FaultKind::HoldOk,
+            FaultKind::DelayedRpcError, FaultKind::ErrorThenOk, FaultKind::ErrorWarningThenOk, FaultKind::ForeignError, FaultKind::HoldOk, FaultKind::ErrorReplyThenSecondPositiveReply,
         ]
         .into_iter()
         .find(|f| f.name() == s)
@@ -371,6 +375,11 @@ async fn serve(mut s: tokio_rustls::server::TlsStream<tokio::net::TcpStream>, se
                     FaultKind::HoldOk => {
                         late.push(reply(&idv, &ok_body));
                         None
+                    }
+                    FaultKind::ErrorReplyThenSecondPositiveReply => {
+                        let mut b = reply(&idv, &format!("<load-configuration-results>{RPC_ERROR}<load-error-count>1</load-error-count></load-configuration-results>"));
+                        b.extend(reply(&idv, &ok_body));
+                        Some(b)
                     }
                     FaultKind::NotXml => Some(format!("%%% not xml at all <<<{MARKER}").into_bytes()),
                     FaultKind::Truncated => {
